@@ -1407,13 +1407,79 @@ theorem requiredCaps_eq (d : Diagram) :
 inductive BuildOp where
   | addModule (m : ModuleSpec)
   | connect (a p b q : Nat)
+  /-- `diagram.wires.remove(w)`: the public list edited directly (re-wiring = remove, then `connect`) -/
+  | removeWire (w : Wire)
+  /-- `diagram.wires.reverse()` -/
+  | reverseWires
 
-/-- one API call; a call that raises leaves the diagram as it was (both methods raise before they mutate) -/
+/-- one API call; a call that raises leaves the diagram as it was (the methods raise before they mutate;
+    `list.remove` of an absent wire raises a ValueError) -/
 def Diagram.apply (d : Diagram) : BuildOp → Diagram
   | .addModule m => match d.addModule m with | .ok d' => d' | .error _ => d
   | .connect a p b q => match d.connect a p b q with | .ok d' => d' | .error _ => d
+  | .removeWire w => d.removeWire w
+  | .reverseWires => d.reverseWires
 
 def Diagram.build (ops : List BuildOp) : Diagram := ops.foldl Diagram.apply {}
+
+/-- taking wires away, or re-ordering them, keeps a diagram accepted -/
+theorem accepted_of_wires_subset {d d' : Diagram} (hm : d'.modules = d.modules)
+    (hsub : ∀ w ∈ d'.wires, w ∈ d.wires) (hacc : d.Accepted) : d'.Accepted := by
+  intro w hw
+  obtain ⟨s, t, hs, ht, h1, h2⟩ := hacc w (hsub w hw)
+  refine ⟨s, t, ?_, ?_, h1, h2⟩
+  · simpa [Diagram.outPort, Diagram.findMod, hm] using hs
+  · simpa [Diagram.inPort, Diagram.findMod, hm] using ht
+
+theorem removeWire_preserves {d : Diagram} (w : Wire) (hwf : d.WF) (hacc : d.Accepted) :
+    (d.removeWire w).WF ∧ (d.removeWire w).Accepted :=
+  ⟨hwf, accepted_of_wires_subset (d := d) (d' := d.removeWire w) rfl
+    (fun _ h => List.mem_of_mem_erase (by simpa [Diagram.removeWire] using h)) hacc⟩
+
+theorem reverseWires_preserves {d : Diagram} (hwf : d.WF) (hacc : d.Accepted) :
+    d.reverseWires.WF ∧ d.reverseWires.Accepted :=
+  ⟨hwf, accepted_of_wires_subset (d := d) (d' := d.reverseWires) rfl
+    (fun _ h => by simpa [Diagram.reverseWires] using h) hacc⟩
+
+/-- the flow rule for one wire, on the declarations of `d` -/
+def Diagram.WireOK (d : Diagram) (w : Wire) : Prop :=
+  ∃ s t, d.outPort w.srcM w.srcP = some s ∧ d.inPort w.dstM w.dstP = some t ∧ s.dt = t.dt ∧ t.il ≤ s.il
+
+theorem setWire_preserves {d : Diagram} (i : Nat) (w : Wire) (hw : d.WireOK w) (hwf : d.WF) (hacc : d.Accepted) :
+    (d.setWire i w).WF ∧ (d.setWire i w).Accepted := by
+  refine ⟨hwf, ?_⟩
+  intro x hx
+  have hx' : x ∈ d.wires.set i w := hx
+  rcases List.mem_or_eq_of_mem_set hx' with h | rfl
+  · exact hacc x h
+  · exact hw
+
+theorem find_filter_ne {n k : Nat} (hk : k ≠ n) : ∀ l : List ModuleSpec,
+    (l.filter (fun m => m.name != n)).find? (·.name == k) = l.find? (·.name == k)
+  | [] => rfl
+  | m :: r => by
+    have ih := find_filter_ne hk r
+    by_cases hm : m.name = n
+    · have hne : (m.name == k) = false := by
+        simp only [beq_eq_false_iff_ne, ne_eq]; exact fun h => hk (h ▸ hm)
+      have hf : (m.name != n) = false := by simp [hm]
+      rw [List.filter_cons, hf, List.find?_cons, hne]
+      exact ih
+    · have hf : (m.name != n) = true := by simp [hm]
+      rw [List.filter_cons, hf]
+      simp only [if_true, List.find?_cons]
+      rw [ih]
+
+theorem delModule_preserves {d : Diagram} (n : Nat) (hfree : ∀ w ∈ d.wires, w.srcM ≠ n ∧ w.dstM ≠ n)
+    (hwf : d.WF) (hacc : d.Accepted) : (d.delModule n).WF ∧ (d.delModule n).Accepted := by
+  constructor
+  · exact List.Nodup.sublist (List.Sublist.map _ List.filter_sublist) hwf
+  · intro w hw
+    obtain ⟨s, t, hs, ht, h1, h2⟩ := hacc w hw
+    obtain ⟨ha, hb⟩ := hfree w hw
+    refine ⟨s, t, ?_, ?_, h1, h2⟩
+    · simpa [Diagram.outPort, Diagram.findMod, Diagram.delModule, find_filter_ne ha] using hs
+    · simpa [Diagram.inPort, Diagram.findMod, Diagram.delModule, find_filter_ne hb] using ht
 
 theorem apply_preserves {d : Diagram} (op : BuildOp) (hwf : d.WF) (hacc : d.Accepted) :
     (d.apply op).WF ∧ (d.apply op).Accepted := by
@@ -1428,6 +1494,8 @@ theorem apply_preserves {d : Diagram} (op : BuildOp) (hwf : d.WF) (hacc : d.Acce
     split
     · rename_i d' h; exact connect_preserves h hwf hacc
     · exact ⟨hwf, hacc⟩
+  | removeWire w => exact removeWire_preserves w hwf hacc
+  | reverseWires => exact reverseWires_preserves hwf hacc
 
 theorem foldl_apply_preserves : ∀ (ops : List BuildOp) (d : Diagram), d.WF → d.Accepted →
     (ops.foldl Diagram.apply d).WF ∧ (ops.foldl Diagram.apply d).Accepted
